@@ -349,6 +349,47 @@ theorem package_dir_from_last_name (i : Inferred) (pre post : List (List Char ×
       nsWith i ((answer (pre ++ (keyName, v) :: post)).nspace.map PyRt.lower) ++ [overriddenVersioned i v] := by
   simp only [packageDir, name_override_last_wins pre post v hpost]
 
+/-! ### Link to the machine-translated functions of `gapic/schema/naming.py` (Pinned/Funcs.lean, bridged to the current source) -/
+
+/-- `naming.module_name` under the name override IS the translated `Naming.module_name` applied to the override text -/
+theorem overriddenModule_is_translated (i : Inferred) (nameOv : List Char) :
+    overriddenModule i nameOv = Pinned.Funcs.naming_module_name (if nameOv = [] then i.name else nameOverrideText nameOv) := rfl
+
+/-- `naming.versioned_module_name` of the hand model IS the translated `NewNaming.versioned_module_name` -/
+theorem overriddenVersioned_is_translated (i : Inferred) (nameOv : List Char) :
+    overriddenVersioned i nameOv = Pinned.Funcs.new_naming_versioned_module_name (overriddenModule i nameOv) i.version := by
+  unfold overriddenVersioned Pinned.Funcs.new_naming_versioned_module_name PyRt.truthy
+  cases i.version <;> simp
+
+/-- without an override (inference only) -/
+theorem versionedModule_is_translated (i : Inferred) :
+    versionedModule i = Pinned.Funcs.new_naming_versioned_module_name i.name i.version := by
+  unfold versionedModule Pinned.Funcs.new_naming_versioned_module_name PyRt.truthy
+  cases i.version <;> simp
+
+/-- the namespace DIRECTORIES (`i.lower()` of the namespace, what `_get_filename` joins) are the translated
+`Naming.module_namespace` (what the emitted imports join) whenever every segment is a fixed point of
+`to_valid_module_name` — i.e. directory path = import path -/
+theorem namespace_dirs_are_module_namespace (segs : List (List Char))
+    (h : ∀ s ∈ segs, Pinned.Funcs.to_valid_module_name s = s) : Pinned.Funcs.naming_module_namespace segs = segs := by
+  unfold Pinned.Funcs.naming_module_namespace
+  conv => rhs; rw [← List.map_id segs]
+  exact List.map_congr_left (fun s hs => by simp [h s hs])
+
+/-- **`packageDir` in terms of the translated functions**: `module_namespace ++ [versioned_module_name(module_name(name))]` -/
+theorem packageDir_is_translated (i : Inferred) (kv : List (List Char × List Char))
+    (h : ∀ s ∈ nsWith i ((answer kv).nspace.map PyRt.lower), Pinned.Funcs.to_valid_module_name s = s) :
+    packageDir i kv =
+      Pinned.Funcs.naming_module_namespace (nsWith i ((answer kv).nspace.map PyRt.lower)) ++
+      [Pinned.Funcs.new_naming_versioned_module_name
+        (Pinned.Funcs.naming_module_name (if (answer kv).name = [] then i.name else nameOverrideText (answer kv).name)) i.version] := by
+  rw [namespace_dirs_are_module_namespace _ h, ← overriddenModule_is_translated, ← overriddenVersioned_is_translated]
+  rfl
+
+/-- the fixed-point hypothesis holds for ordinary namespace segments (the regex engine runs the pinned pattern) -/
+example : ∀ s ∈ ["google".toList, "cloud".toList, "x_y".toList, "a1".toList], Pinned.Funcs.to_valid_module_name s = s := by
+  decide +kernel
+
 theorem splitOn_no_sep (sep : Char) (opt : List Char) (h : sep ∉ opt) : splitOn sep opt = [opt] := by
   induction opt with
   | nil => rfl
@@ -780,6 +821,51 @@ example :
      ["acme".toList, "lib_v1".toList, "admin".toList, "audit".toList, "__init__.py".toList],
      ["acme".toList, "lib_v1".toList, "admin".toList, "audit".toList, "types".toList, "__init__.py".toList]].all
       (fun f => (responseNames o (shapeOf nm ps) templatesDefault).contains f) = true := by decide +kernel
+
+/-! ### The "private" rule is about TEMPLATE names, never about the names of the files a template yields -/
+
+def typesTemplate : Str := "%namespace/%name_%version/%sub/types/%proto.py.j2".toList
+
+/-- finite facts about the shipped types template: it is in the template list, it is neither private nor the
+sample template, it carries `%sub` and `%proto`, no whole-template gate applies to it whatever the options, and its
+last path segment is `%proto` followed by `.py` -/
+theorem typesTemplate_facts :
+    typesTemplate ∈ templatesDefault ∧ isPrivate typesTemplate = false ∧ isSampleTemplate typesTemplate = false ∧
+    hasVar (parseTemplate typesTemplate) .sub = true ∧ hasVar (parseTemplate typesTemplate) .proto = true ∧
+    ['g', 'a', 'p', 'i', 'c', '_', 'm', 'e', 't', 'a', 'd', 'a', 't', 'a', '.', 'j', 's', 'o', 'n', '.', 'j', '2'].isSuffixOf typesTemplate = false ∧
+    startsWith ['%', 'n', 'a', 'm', 'e', 's', 'p', 'a', 'c', 'e', '/', '%', 'n', 'a', 'm', 'e', '/'] typesTemplate = false ∧
+    parseTemplate typesTemplate =
+      [[.var .ns], [.var .nameVersion], [.var .sub], [.lit "types".toList]] ++ [[.var .proto, .lit ".py".toList]] := by
+  decide +kernel
+
+/-- **Every target proto file yields its types module, whatever its name**: for every option set, naming and list of
+target protos, the response contains `<root>/<sub-package>/types/<module>.py` for each target proto — also when
+`<module>` starts with underscores (`_internal.proto`, `__private.proto`): `isPrivate` looks at the template's own
+base name (`%proto.py.j2`), not at the substituted output. -/
+theorem every_target_proto_has_types_module (o : Opts) (nm : Naming) (ps : List ProtoAt) (p : ProtoAt) (hmem : p ∈ ps) :
+    getFilename ⟨nm, p.sub, none, some p.module⟩ (parseTemplate typesTemplate) ∈ responseNames o (shapeOf nm ps) templatesDefault ∧
+    ∃ dir, getFilename ⟨nm, p.sub, none, some p.module⟩ (parseTemplate typesTemplate) = dir ++ [p.module ++ ".py".toList] := by
+  obtain ⟨hin, hpriv, hsample, hsub, hproto, hmeta, hunv, hparse⟩ := typesTemplate_facts
+  constructor
+  · rw [(response_names_unique o _ _).2]
+    simp only [renders, List.mem_flatMap, List.mem_filter, Bool.and_eq_true, Bool.not_eq_true']
+    refine ⟨typesTemplate, ⟨hin, hpriv, hsample⟩, ?_⟩
+    exact proto_file_under_own_subpackage o nm ps typesTemplate ⟨by simp [hmeta], by simp [hunv]⟩ hsub hproto p hmem
+  · rw [hparse, getFilename_append]
+    refine ⟨getFilename ⟨nm, p.sub, none, some p.module⟩
+      [[.var .ns], [.var .nameVersion], [.var .sub], [.lit "types".toList]], ?_⟩
+    congr 1
+    simp [getFilename, segOut, partText, varText]
+
+/-- e.g. `_internal.proto` next to `lib.proto`, and `__private.proto` in a sub-package -/
+example :
+    let o : Opts := ⟨[['g','r','p','c']], false, false, false⟩
+    let nm : Naming := ⟨[['a','c','m','e']], ['l','i','b'], ['v','1'], ['l','i','b','_','v','1']⟩
+    let ps : List ProtoAt := [⟨[], "lib".toList, ["library".toList]⟩, ⟨[], "_internal".toList, []⟩, ⟨["admin".toList], "__private".toList, []⟩]
+    [["acme".toList, "lib_v1".toList, "types".toList, "_internal.py".toList],
+     ["acme".toList, "lib_v1".toList, "admin".toList, "types".toList, "__private.py".toList]].all
+      (fun f => (responseNames o (shapeOf nm ps) templatesDefault).contains f) = true ∧
+    (responseNames o (shapeOf nm ps) templatesDefault).all (fun f => f.getLast? ≠ some "_base.py".toList) = true := by decide +kernel
 
 end Nested
 
